@@ -130,6 +130,13 @@ fn parse_group(toks: &[&str], i: &mut usize) -> Option<BoxS> {
         let l: BoxS = if toks[*i] == "(" {
             *i += 1;
             match parse_group(toks, i) { Some(g) => g, None => continue }
+        } else if toks[*i] == "[" {
+            // `[ l0 l1 … ]`: ONE subscriber, a Vec of the member layers (innermost first, the order they are notified in)
+            *i += 1;
+            let mut members: Vec<BoxS> = Vec::new();
+            while *i < toks.len() && toks[*i] != "]" { members.push(parse_layer(toks, i)); }
+            *i += 1;
+            Box::new(members)
         } else {
             parse_layer(toks, i)
         };
